@@ -99,13 +99,14 @@ class SSCChart(BaseChart):
             raise ValueError("expected NOTEDATA property first")
 
         for param in iterator:
+            key = param.key.upper()
             if param.value is None:
-                self[param.key] = None
-            elif param.key in BaseSimfile.MULTI_VALUE_PROPERTIES:
-                self[param.key] = ":".join(param.components[1:])
+                self[key] = None
+            elif key in BaseSimfile.MULTI_VALUE_PROPERTIES:
+                self[key] = ":".join(param.components[1:])
             else:
-                self[param.key] = param.value
-            if param.key in ("NOTES", "NOTES2"):
+                self[key] = param.value
+            if key in ("NOTES", "NOTES2"):
                 break
 
     def serialize(self, file):
